@@ -56,6 +56,7 @@ func plan(unknown int, callers ...int) *rig.MuxPlan {
 }
 
 func main() {
+	ev.Supervise("C06", ev.ArgTier(), "exploration", "the monitor runs in a child process; a panic or runtime fatal error on a goroutine of the library (inbound reader, dispatch) ends every in-flight request and is a violation attributed to the first library frame of the dying goroutine")
 	run := ev.New("C06", ev.ArgTier(), "exploration")
 	run.Rule("(a) enforced schedules over plans with up to 4 duplicates per op id, late frames for timed-out callers and never-issued ids: all interleavings (or a seeded sample when the DFS exceeds its bound) of lookup / delivery with the callers' receive / timeout / unregister+return steps, callers held after their receive so that their registration outlives several duplicates; after every schedule a fresh request must be answered; (b) hook-free stress: up to 64 concurrent callers, up to 4 back-to-back duplicates written in one burst. Verdict is logical: send.begin(opid) without send.end(opid) while the only possible receiver is past its receive. distinct = distinct (leg, plan, schedule) strings + stress shapes")
 	run.Assume("yield points compiled in with -tags verif do not change behaviour when no goroutine is parked")
@@ -272,11 +273,12 @@ func fragments(run *ev.Run, established *int32) {
 		n       int
 		seed    int64
 		blocked bool
+		reopen  bool
 	}
 	var par, ser []spec
 	for i := 0; i < trials; i++ {
 		ns := []int{1, 2, 3, 4, 8, 16, 40, 64}
-		sp := spec{ns[rng.Intn(len(ns))], rng.Int63(), i%3 == 0}
+		sp := spec{ns[rng.Intn(len(ns))], rng.Int63(), i%3 == 0, i%4 == 1}
 		if sp.blocked {
 			ser = append(ser, sp)
 		} else {
@@ -284,13 +286,13 @@ func fragments(run *ev.Run, established *int32) {
 		}
 	}
 	var mu sync.Mutex
-	chunks, splits, bytes, blockedN := 0, 0, 0, 0
+	chunks, splits, bytes, blockedN, reopenN := 0, 0, 0, 0, 0
 	var fragEstablished int32
 	one := func(sp spec) {
 		if atomic.LoadInt32(&fragEstablished) >= 3 {
 			return // each established stall costs seconds; three witnesses are enough
 		}
-		r := rig.FragmentTrial(sp.n, sp.seed, sp.blocked)
+		r := rig.FragmentTrial(sp.n, sp.seed, sp.blocked, sp.reopen)
 		run.Eval(1)
 		mu.Lock()
 		chunks += r.Chunks
@@ -298,6 +300,9 @@ func fragments(run *ev.Run, established *int32) {
 		bytes += r.Bytes
 		if sp.blocked {
 			blockedN++
+		}
+		if sp.reopen {
+			reopenN++
 		}
 		mu.Unlock()
 		switch {
@@ -332,6 +337,7 @@ func fragments(run *ev.Run, established *int32) {
 	}
 	run.Set("fragment_trials", trials)
 	run.Set("fragment_trials_with_a_request_blocked_in_Write", blockedN)
+	run.Set("fragment_trials_on_a_transport_reopened_after_a_session_that_ended_inside_a_frame", reopenN)
 	run.Set("fragment_pieces_fed", chunks)
 	run.Set("fragment_size_prefixes_split_across_reads", splits)
 	run.Set("fragment_response_bytes", bytes)
